@@ -1094,6 +1094,18 @@ func singleDefIn(info *types.Info, body ast.Node, o types.Object) ast.Expr {
 				}
 			}
 		}
+		// var ( freedDir = model.ParseDir(cf.Parent) )
+		if vs, ok := x.(*ast.ValueSpec); ok {
+			for i, nm := range vs.Names {
+				if info.Defs[nm] == o {
+					if len(vs.Values) == len(vs.Names) {
+						rhs = vs.Values[i]
+					} else if len(vs.Values) == 1 {
+						rhs = vs.Values[0]
+					}
+				}
+			}
+		}
 		return true
 	})
 	return rhs
